@@ -519,7 +519,8 @@ def check_replay_loop(ctx, prog, R, rb, good_app, fk):
             continue
         idx = [(b, t) for b, t, fr in R.iter_calls(lbody) if fr and lib.tail(mir.fn_name(fr), 1) == "index" and "VecDeque" in mir.fn_name(fr)
                and lib.originates_from_call(R, t["args"][0], rb)]
-        rem = [(b, t) for b, t, fr in R.iter_calls(lbody) if fr and mir.strip_generics(mir.fn_name(fr)).endswith("VecDeque::remove")
+        rem = [(b, t, mir.strip_generics(mir.fn_name(fr))) for b, t, fr in R.iter_calls(lbody)
+               if fr and mir.strip_generics(mir.fn_name(fr)).endswith(("VecDeque::remove", "VecDeque::swap_remove_back", "VecDeque::swap_remove_front"))
                and lib.originates_from_call(R, t["args"][0], rb)]
         lens = [(b, t) for b, t, fr in R.iter_calls(lbody) if fr and mir.strip_generics(mir.fn_name(fr)).endswith("VecDeque::len")
                 and lib.originates_from_call(R, t["args"][0], rb)]
@@ -582,6 +583,9 @@ def check_replay_loop(ctx, prog, R, rb, good_app, fk):
         if not (ok_shape and ok_exit):
             return True
         drop_b = rem[0][0]
+        ctx.check(rem[0][2].endswith("VecDeque::remove"), "C02.c", "%s:drop-preserves-order" % ck, R.loc(drop_b),
+                  "the scanned element is removed with the order-preserving VecDeque::remove",
+                  "%s moves another element into the scanned position: postponed commands are reordered and one is skipped" % rem[0][2])
         keep_b = sorted({b for b, i, st in incs})
         # exactly one of DROP / KEEP per iteration
         one = iteration_counts(R, lbody, h, h, [drop_b] + keep_b) == {1}
